@@ -71,12 +71,17 @@ impl DebugServer {
         let thread = self.thread.unwrap();
         while !thread.is_finished() {
             // End a running session...
-            self.lsp.lock().unwrap().invoke_shutdown_handlers();
+            if let Ok(mut lsp) = self.lsp.lock() {
+                lsp.invoke_shutdown_handlers();
+            }
             // ...or wake up a session that is still waiting for a debugger to connect
             let _ = std::net::TcpStream::connect(("127.0.0.1", self.port));
             std::thread::sleep(std::time::Duration::from_millis(10));
         }
-        thread.join().expect("Could not join debugger thread");
+        if thread.join().is_err() {
+            // The thread died earlier (its panic was reported then): nothing is left to shut down
+            log::error!("The debugger thread had panicked");
+        }
         Ok(())
     }
 }
